@@ -126,19 +126,19 @@ direct calls, messages and their handlers, as long as no non-tolerated exception
 once per entry of the entered-states log, and the broadcasts that went out are, in order (both logs newest first), exactly
 `owed pid entered` — one announcement per entry, with subject `state_changed.<entry before it>.<entry>` (`None` for the first),
 sender the process id, index its position — minus those at which the oracle made `broadcast_send` fail. -/
-theorem C16_broadcast_log_exact (O : Oracle) (P : Prog) (name pid : String) (evs : List Ev)
-    (hf : (run O P (create O name pid) evs).ch.failed = none) :
-    (run O P (create O name pid) evs).ch.announced = (run O P (create O name pid) evs).p.entered.length ∧
-    (run O P (create O name pid) evs).ch.blog =
-      (owed pid (run O P (create O name pid) evs).p.entered).filter (okAt O) := by
-  have hc : (create O name pid).ch.failed = none := by
-    cases hx : (create O name pid).ch.failed with
+theorem C16_broadcast_log_exact (O : Oracle) (P : Prog) (nfut : Nat) (pid : String) (evs : List Ev)
+    (hf : (run O P (create O nfut pid) evs).ch.failed = none) :
+    (run O P (create O nfut pid) evs).ch.announced = (run O P (create O nfut pid) evs).p.entered.length ∧
+    (run O P (create O nfut pid) evs).ch.blog =
+      (owed pid (run O P (create O nfut pid) evs).p.entered).filter (okAt O) := by
+  have hc : (create O nfut pid).ch.failed = none := by
+    cases hx : (create O nfut pid).ch.failed with
     | none => rfl
     | some v =>
-      have := run_of_failed O P evs (create O name pid) (by simp [hx])
+      have := run_of_failed O P evs (create O nfut pid) (by simp [hx])
       rw [this, hx] at hf; cases hf
-  have g := run_good O P evs _ (create_good O name pid hc) hf
-  have hp : (run O P (create O name pid) evs).ch.pid = pid := by rw [run_pid, create_pid]
+  have g := run_good O P evs _ (create_good O nfut pid hc) hf
+  have hp : (run O P (create O nfut pid) evs).ch.pid = pid := by rw [run_pid, create_pid]
   exact ⟨g.ann.count, by rw [g.ann.blog, hp]⟩
 
 /-- what is owed, spelled out: per entered state one announcement, subject `state_changed.<from>.<to>`, sent by the pid -/
@@ -148,13 +148,13 @@ theorem C16_owed_spec (pid : String) (b : Label) (rest : List Label) :
   simp [owed, C16_subject_format]
 
 /-- without failures every transition is announced: the log *is* what is owed — exactly once each, in order -/
-theorem C16_each_transition_announced_once (P : Prog) (name pid : String) (evs : List Ev) :
-    (run allOk P (create allOk name pid) evs).ch.failed = none ∧
-    (run allOk P (create allOk name pid) evs).ch.blog = owed pid (run allOk P (create allOk name pid) evs).p.entered := by
+theorem C16_each_transition_announced_once (P : Prog) (nfut : Nat) (pid : String) (evs : List Ev) :
+    (run allOk P (create allOk nfut pid) evs).ch.failed = none ∧
+    (run allOk P (create allOk nfut pid) evs).ch.blog = owed pid (run allOk P (create allOk nfut pid) evs).p.entered := by
   have q : Quiet allOk := fun _ => Or.inl rfl
-  have s := (run_sim allOk allOk q q P evs _ _ (create_sim allOk allOk q q name pid)).1
+  have s := (run_sim allOk allOk q q P evs _ _ (create_sim allOk allOk q q nfut pid)).1
   refine ⟨s.ok, ?_⟩
-  rw [(C16_broadcast_log_exact allOk P name pid evs s.ok).2]
+  rw [(C16_broadcast_log_exact allOk P nfut pid evs s.ok).2]
   apply List.filter_eq_self.mpr
   intro b _; rfl
 
@@ -166,22 +166,22 @@ never lets an exception escape, ends in the same process configuration, with the
 same subscriptions, and produced the same observation after every event as the failure-free run; the broadcast log is the
 failure-free log without the entry of transition `i`. -/
 theorem C16_tolerated_failure_invisible (i : Nat) (cls : String) (hc : cls ∈ Gen.toleratedBroadcastFailures)
-    (P : Prog) (name pid : String) (evs : List Ev) :
-    (run (failAt i cls) P (create (failAt i cls) name pid) evs).ch.failed = none ∧
-    (run (failAt i cls) P (create (failAt i cls) name pid) evs).p = (run allOk P (create allOk name pid) evs).p ∧
-    (run (failAt i cls) P (create (failAt i cls) name pid) evs).inbox = (run allOk P (create allOk name pid) evs).inbox ∧
-    (run (failAt i cls) P (create (failAt i cls) name pid) evs).calls = (run allOk P (create allOk name pid) evs).calls ∧
-    (run (failAt i cls) P (create (failAt i cls) name pid) evs).replies = (run allOk P (create allOk name pid) evs).replies ∧
-    erase (run (failAt i cls) P (create (failAt i cls) name pid) evs).ch = erase (run allOk P (create allOk name pid) evs).ch ∧
-    trace (failAt i cls) P (create (failAt i cls) name pid) evs = trace allOk P (create allOk name pid) evs ∧
-    (run (failAt i cls) P (create (failAt i cls) name pid) evs).ch.blog =
-      (run allOk P (create allOk name pid) evs).ch.blog.filter (fun b => b.idx ≠ i) := by
+    (P : Prog) (nfut : Nat) (pid : String) (evs : List Ev) :
+    (run (failAt i cls) P (create (failAt i cls) nfut pid) evs).ch.failed = none ∧
+    (run (failAt i cls) P (create (failAt i cls) nfut pid) evs).p = (run allOk P (create allOk nfut pid) evs).p ∧
+    (run (failAt i cls) P (create (failAt i cls) nfut pid) evs).inbox = (run allOk P (create allOk nfut pid) evs).inbox ∧
+    (run (failAt i cls) P (create (failAt i cls) nfut pid) evs).calls = (run allOk P (create allOk nfut pid) evs).calls ∧
+    (run (failAt i cls) P (create (failAt i cls) nfut pid) evs).replies = (run allOk P (create allOk nfut pid) evs).replies ∧
+    erase (run (failAt i cls) P (create (failAt i cls) nfut pid) evs).ch = erase (run allOk P (create allOk nfut pid) evs).ch ∧
+    trace (failAt i cls) P (create (failAt i cls) nfut pid) evs = trace allOk P (create allOk nfut pid) evs ∧
+    (run (failAt i cls) P (create (failAt i cls) nfut pid) evs).ch.blog =
+      (run allOk P (create allOk nfut pid) evs).ch.blog.filter (fun b => b.idx ≠ i) := by
   have q1 := quiet_failAt i cls hc
   have q2 : Quiet allOk := fun _ => Or.inl rfl
-  have h := run_sim (failAt i cls) allOk q1 q2 P evs _ _ (create_sim (failAt i cls) allOk q1 q2 name pid)
+  have h := run_sim (failAt i cls) allOk q1 q2 P evs _ _ (create_sim (failAt i cls) allOk q1 q2 nfut pid)
   refine ⟨h.1.ok, h.1.p, h.1.inbox, h.1.calls, h.1.replies, h.1.ch, h.2, ?_⟩
-  have hb := (C16_each_transition_announced_once P name pid evs).2
-  rw [(C16_broadcast_log_exact (failAt i cls) P name pid evs h.1.ok).2, hb, h.1.p]
+  have hb := (C16_each_transition_announced_once P nfut pid evs).2
+  rw [(C16_broadcast_log_exact (failAt i cls) P nfut pid evs h.1.ok).2, hb, h.1.p]
   apply List.filter_congr
   intro b _
   by_cases hbi : b.idx = i <;> simp [okAt, failAt, isOk, hbi]
@@ -204,21 +204,21 @@ theorem C16_erase_spec (a b : Chan) (h : erase a = erase b) :
 /-- **unsubscribed after termination** (clause 4).  In every reachable configuration (no escaped exception): a closed process
 has no subscription left (the cleanups registered by `init` ran); a terminated process is closed; hence an RPC to it is
 unroutable and a broadcast finds no subscriber, and neither changes anything. -/
-theorem C16_unsubscribed_after_termination (O : Oracle) (P : Prog) (name pid : String) (evs : List Ev)
-    (hf : (run O P (create O name pid) evs).ch.failed = none) :
-    ((run O P (create O name pid) evs).p.closed = true →
-        (run O P (create O name pid) evs).ch.subRpc = false ∧ (run O P (create O name pid) evs).ch.subBc = false) ∧
-    (terminal (run O P (create O name pid) evs).p.st.label = true →
-        (run O P (create O name pid) evs).p.closed = true ∧
-        ∀ w, step O P (run O P (create O name pid) evs) (.rpc w) = (run O P (create O name pid) evs, .unroutable) ∧
-             step O P (run O P (create O name pid) evs) (.bcast w) = (run O P (create O name pid) evs, .nosub)) := by
-  have hc : (create O name pid).ch.failed = none := by
-    cases hx : (create O name pid).ch.failed with
+theorem C16_unsubscribed_after_termination (O : Oracle) (P : Prog) (nfut : Nat) (pid : String) (evs : List Ev)
+    (hf : (run O P (create O nfut pid) evs).ch.failed = none) :
+    ((run O P (create O nfut pid) evs).p.closed = true →
+        (run O P (create O nfut pid) evs).ch.subRpc = false ∧ (run O P (create O nfut pid) evs).ch.subBc = false) ∧
+    (terminal (run O P (create O nfut pid) evs).p.st.label = true →
+        (run O P (create O nfut pid) evs).p.closed = true ∧
+        ∀ w, step O P (run O P (create O nfut pid) evs) (.rpc w) = (run O P (create O nfut pid) evs, .unroutable) ∧
+             step O P (run O P (create O nfut pid) evs) (.bcast w) = (run O P (create O nfut pid) evs, .nosub)) := by
+  have hc : (create O nfut pid).ch.failed = none := by
+    cases hx : (create O nfut pid).ch.failed with
     | none => rfl
     | some v =>
-      have := run_of_failed O P evs (create O name pid) (by simp [hx])
+      have := run_of_failed O P evs (create O nfut pid) (by simp [hx])
       rw [this, hx] at hf; cases hf
-  have g := run_good O P evs _ (create_good O name pid hc) hf
+  have g := run_good O P evs _ (create_good O nfut pid hc) hf
   refine ⟨g.closed, fun ht => ?_⟩
   have hcl := g.tc ht
   have hs := g.closed hcl
@@ -246,37 +246,37 @@ section Examples
 
 /-- an async program; a pause RPC is sent after the first callback, its handler and its scheduled call run inside the step -/
 def exEvs : List Ev := [.pm .tick, .rpc "pause", .recv 0, .call 0, .pm .tick, .pm .tick, .pm .tick]
-def exCfg : Cfg := run allOk (progOf "Async2") (create allOk "Async2" "pid") [.pm .tick, .rpc "pause", .recv 0]
+def exCfg : Cfg := run allOk (progOf "Async2") (create allOk 0 "pid") [.pm .tick, .rpc "pause", .recv 0]
 
 -- C16_rpc_is_direct_call applies: the scheduled call of message 0 is pending, nothing failed, and the call is a pause in a step
 example : exCfg.ch.failed = none ∧ exCfg.calls.find? (·.id = 0) = some ⟨0, false, .pause⟩ ∧ evOf .pause = some .pause ∧
     exCfg.p.stepping = true := by decide +kernel
 -- … and the reply is then an action whose eventual outcome is True, the process ends up paused
-example : (run allOk (progOf "Async2") (create allOk "Async2" "pid") exEvs).p.paused.isSome = true ∧
-    ((run allOk (progOf "Async2") (create allOk "Async2" "pid") exEvs).replies.map
-      (fun e => replyVal (run allOk (progOf "Async2") (create allOk "Async2" "pid") exEvs).p e.2)) = [.bool true] := by
+example : (run allOk (progOf "Async2") (create allOk 0 "pid") exEvs).p.paused.isSome = true ∧
+    ((run allOk (progOf "Async2") (create allOk 0 "pid") exEvs).replies.map
+      (fun e => replyVal (run allOk (progOf "Async2") (create allOk 0 "pid") exEvs).p e.2)) = [.bool true] := by
   decide +kernel
 -- C16_broadcast_is_direct_call applies: a kill broadcast whose call is pending
-example : (run allOk (progOf "Async2") (create allOk "Async2" "pid") [.pm .tick, .bcast "kill", .recv 0]).calls.find? (·.id = 0)
+example : (run allOk (progOf "Async2") (create allOk 0 "pid") [.pm .tick, .bcast "kill", .recv 0]).calls.find? (·.id = 0)
     = some ⟨0, true, .kill⟩ := by decide +kernel
 -- C16_status_is_direct_call / C16_unknown_intent_rejected apply: such messages sit in the inbox
-example : (run allOk (progOf "Waiter") (create allOk "Waiter" "pid") [.rpc "status", .rpc "bogus"]).inbox =
+example : (run allOk (progOf "Waiter") (create allOk 0 "pid") [.rpc "status", .rpc "bogus"]).inbox =
     [⟨0, false, "status"⟩, ⟨1, false, "bogus"⟩] := by decide +kernel
 -- C16_broadcast_log_exact on a run with four transitions, one of which fails in a tolerated way: three announcements
-example : (run (failAt 2 "TimeoutError") (progOf "Sync2") (create (failAt 2 "TimeoutError") "Sync2" "pid") [.pm .tick]).ch.failed
+example : (run (failAt 2 "TimeoutError") (progOf "Sync2") (create (failAt 2 "TimeoutError") 0 "pid") [.pm .tick]).ch.failed
       = none ∧
-    ((run (failAt 2 "TimeoutError") (progOf "Sync2") (create (failAt 2 "TimeoutError") "Sync2" "pid") [.pm .tick]).ch.blog.map
+    ((run (failAt 2 "TimeoutError") (progOf "Sync2") (create (failAt 2 "TimeoutError") 0 "pid") [.pm .tick]).ch.blog.map
       (·.subject)) = ["state_changed.running.finished", "state_changed.created.running", "state_changed.None.created"] ∧
-    (run (failAt 2 "TimeoutError") (progOf "Sync2") (create (failAt 2 "TimeoutError") "Sync2" "pid") [.pm .tick]).p.entered
+    (run (failAt 2 "TimeoutError") (progOf "Sync2") (create (failAt 2 "TimeoutError") 0 "pid") [.pm .tick]).p.entered
       = [.finished, .running, .running, .created] := by decide +kernel
 -- C16_tolerated_failure_invisible: the tolerated kinds exist
 example : "ConnectionClosed" ∈ Gen.toleratedBroadcastFailures ∧ "TimeoutError" ∈ Gen.toleratedBroadcastFailures := by decide
 -- a non-tolerated exception does escape (so `failed = none` is a real hypothesis, and the model stops there)
-example : (run (failAt 1 "ValueError") (progOf "Sync2") (create (failAt 1 "ValueError") "Sync2" "pid") [.pm .tick]).ch.failed
+example : (run (failAt 1 "ValueError") (progOf "Sync2") (create (failAt 1 "ValueError") 0 "pid") [.pm .tick]).ch.failed
     = some 1 := by decide +kernel
 -- C16_unsubscribed_after_termination: a run that terminates; before it, both subscriptions exist
-example : terminal (run allOk (progOf "Sync2") (create allOk "Sync2" "pid") [.pm .tick]).p.st.label = true ∧
-    (create allOk "Sync2" "pid").ch.subRpc = true ∧ (create allOk "Sync2" "pid").ch.subBc = true := by decide +kernel
+example : terminal (run allOk (progOf "Sync2") (create allOk 0 "pid") [.pm .tick]).p.st.label = true ∧
+    (create allOk 0 "pid").ch.subRpc = true ∧ (create allOk 0 "pid").ch.subBc = true := by decide +kernel
 
 end Examples
 
